@@ -25,6 +25,10 @@ import config  # noqa: E402
 REPO = os.environ.get("VERIF_REPO", "/repo")
 LEAN = os.path.join(VERIF, "lean")
 BUILD = os.path.join(VERIF, ".build")
+# Runs against another tree (VERIF_REPO=<worktree>: seeded changes, mutation survey) never touch the
+# committed evidence or the replay directory of /repo's own runs.
+ALT = os.path.realpath(REPO) != "/repo"
+OUTROOT = os.path.join(BUILD, "alt", hashlib.sha256(os.path.realpath(REPO).encode()).hexdigest()[:10]) if ALT else VERIF
 DRIVER = os.path.join(LEAN, ".lake", "build", "bin", "popsdriver")
 ALLOWED_AXIOMS = {"propext", "Classical.choice", "Quot.sound"}
 FORBIDDEN = re.compile(r"\bsorry\b|\badmit\b|^\s*axiom\s|native_decide|bv_decide|implemented_by|\bunsafe\s|maxHeartbeats\s+0\b", re.M)
@@ -311,7 +315,7 @@ def replay_case(exe, where):
 
 
 def write_replay(pid, name, payload):
-    d = os.path.join(VERIF, "replays")
+    d = os.path.join(OUTROOT, "replays")
     os.makedirs(d, exist_ok=True)
     path = os.path.join(d, name)
     payload["replay_cmd"] = "python3 tools/check.py %s --replay %s" % (pid, path)
@@ -510,8 +514,8 @@ def main():
         "wall_s": round(time.time() - t0, 1),
         "violations": len(violations),
     }
-    os.makedirs(os.path.join(VERIF, "evidence"), exist_ok=True)
-    with open(os.path.join(VERIF, "evidence", pid + ".json"), "w") as fh:
+    os.makedirs(os.path.join(OUTROOT, "evidence"), exist_ok=True)
+    with open(os.path.join(OUTROOT, "evidence", pid + ".json"), "w") as fh:
         json.dump(ev, fh, indent=1)
     log("%s %s: %d theorems audited (%d ok), %d cases / %d compared lines (%d agree), %d distinct non-trivial, %d violations, %.1fs" %
         (pid, tier, obligations, discharged, total["cases"], total["lines"], total["ok"], len(total["hashes_nt"]), len(violations), time.time() - t0))
